@@ -17,7 +17,9 @@
 // the storage is scribbled and freed right after the call.
 // Either-region: a NUL byte inside a unit ("ASCII character" can be read either way).
 #include <algorithm>
+#include <clocale>
 #include <cstring>
+#include <locale>
 #include <map>
 #include <memory>
 #include <string>
@@ -383,6 +385,37 @@ bool regex_unit(const char *d, size_t n)
   return v.ValidateUnit(nostd::string_view(d, n));
 }
 
+// A second pair of validator objects, constructed (first call) and used only while a non-"C" global
+// locale is in force: the regex variant binds its character classes to the global std::locale at
+// construction, the hand-written variant asks isalpha / isalnum of the current C locale.
+bool regex_name_loc(const char *d, size_t n)
+{
+  static const sdkm::InstrumentMetaDataValidator v;
+  return v.ValidateName(nostd::string_view(d, n));
+}
+bool regex_unit_loc(const char *d, size_t n)
+{
+  static const sdkm::InstrumentMetaDataValidator v;
+  return v.ValidateUnit(nostd::string_view(d, n));
+}
+struct LocaleGuard
+{
+  bool ok = false;
+  explicit LocaleGuard(const char *name)
+  {
+    try
+    {
+      std::locale::global(std::locale(name));  // also setlocale(LC_ALL, name)
+      ok = std::setlocale(LC_ALL, name) != nullptr;
+    }
+    catch (const std::exception &)
+    {
+      ok = false;
+    }
+  }
+  ~LocaleGuard() { std::locale::global(std::locale::classic()); }  // also setlocale(LC_ALL, "C")
+};
+
 void check_name(vh::Case &c, const char *variant, NameFn fn, const std::string &name, unsigned layout)
 {
   Held h    = hold(name, layout);
@@ -403,7 +436,8 @@ void check_unit(vh::Case &c, const char *variant, NameFn fn, const std::string &
                    << tri_name(want));
 }
 
-void validator_case(vh::Case &c, bool noregex)
+// mode 0: regex variant, 1: hand-written variant, 2: both variants under a non-"C" global locale
+void validator_case(vh::Case &c, int mode)
 {
   vh::Reader &rd = c.rd;
   unsigned lay   = rd.u8();
@@ -418,7 +452,23 @@ void validator_case(vh::Case &c, bool noregex)
   c.tag(ref_name(n.s) ? "ref-name-accept" : "ref-name-reject");
   c.tag(std::string("ref-unit-") + tri_name(ref_unit(u.s)));
   c.nontrivial = n.cls != "ok-short" || (u.cls != "ok-empty" && u.cls != "ok-short");
-  if (noregex)
+  if (mode == 2)
+  {
+    // the only non-"C" locale installed on this image; the oracle is the statement's, unchanged
+    LocaleGuard g("C.utf8");
+    if (!g.ok)
+    {
+      c.tag("locale-unavailable");
+      c.nontrivial = false;
+      return;
+    }
+    c.tag("locale-C.utf8");
+    check_name(c, "regex (global locale C.utf8)", regex_name_loc, n.s, ln);
+    check_unit(c, "regex (global locale C.utf8)", regex_unit_loc, u.s, lu);
+    check_name(c, "non-regex (global locale C.utf8)", c19_noregex_validate_name, n.s, ln);
+    check_unit(c, "non-regex (global locale C.utf8)", c19_noregex_validate_unit, u.s, lu);
+  }
+  else if (mode == 1)
   {
     check_name(c, "non-regex", c19_noregex_validate_name, n.s, ln);
     check_unit(c, "non-regex", c19_noregex_validate_unit, u.s, lu);
@@ -438,14 +488,21 @@ VH_TARGET(validator, 1,
           "offending byte, embedded NUL, punctuation only, random bytes); distinct = distinct "
           "(name, unit, storage layout) text")
 {
-  validator_case(c, false);
+  validator_case(c, 0);
 }
 
 VH_TARGET(validator_noregex, 1,
           "same rule as validator; the hand-written variant of the same source file is the code under "
           "test")
 {
-  validator_case(c, true);
+  validator_case(c, 1);
+}
+
+VH_TARGET(validator_locale, 1,
+          "same rule as validator; both validator variants are constructed and run while a non-\"C\" global "
+          "locale (C.utf8, the only one installed on this image) is in force")
+{
+  validator_case(c, 2);
 }
 
 VH_TARGET(validator_bytes, 7,
@@ -896,6 +953,32 @@ VH_TARGET(create_e2e, 2,
                       << "], unit " << brief(in->unit.s) << " [" << in->unit.s.size()
                       << "]) is valid and recorded a value, but no stream " << show_stream(e)
                       << " reached the reader (" << seen.size() << " streams seen)");
+  }
+  // observable instruments: "inert" also means that the callback handed to an instrument that was
+  // not created is never run; a created one is asked at every collection
+  for (auto &in : insts)
+  {
+    if (in->call < 6 || !in->h.cb)
+      continue;
+    bool invalid = !in->name_ok || in->unit_v == kReject;
+    if (invalid)
+    {
+      c.tag("observable-invalid-callback-never-run");
+      VH_CHECK(c, in->h.cb->calls == 0,
+               "Create" << kCreateName[in->call] << " with "
+                        << (in->name_ok ? "an invalid unit " : "an invalid name ")
+                        << (in->name_ok ? brief(in->unit.s) : brief(in->name.s))
+                        << " must return an inert instrument, but the callback added to it ran " << in->h.cb->calls
+                        << " time(s) during " << rounds << " collection(s)");
+    }
+    else if (in->unit_v == kAccept)
+    {
+      c.tag("observable-valid-callback-run");
+      VH_CHECK(c, in->h.cb->calls >= static_cast<int>(rounds),
+               "Create" << kCreateName[in->call] << "(name " << brief(in->name.s) << ", unit " << brief(in->unit.s)
+                        << ") is valid, but the callback added to it ran " << in->h.cb->calls << " time(s) during "
+                        << rounds << " collection(s)");
+    }
   }
   for (auto &in : insts)
     in->h.release();
